@@ -14,6 +14,13 @@
  *                                            g:<hex key>         get                               -> g=<rc>/<tag|~>
  *                                            r:<hex key>         remove                            -> r=<rc>
  *                                            k                   keys / names, sorted              -> k=[<hex>,<hex>,…]
+ *                                            S   (tbl) the table is stored in a managed CIF with cif_container_set_value and read back with
+ *                                                cif_container_get_value; every later op works on the READ-BACK table   -> S=<rc set>/<rc get>
+ *                                            P   (tbl) the table is stored as the one item of a loop packet (cif_loop_add_packet) and read
+ *                                                back through a packet iterator (cif_pktitr_next_packet, value cloned out of the packet);
+ *                                                (pkt) the packet itself is added to a loop created with its names and read back through
+ *                                                a packet iterator as a new packet; later ops work on what was read back
+ *                                                                                                          -> P=<rc add>/<rc next> | P=skip (empty packet)
  *     -> nm <result> <result> … | g:… (one per distinct key)
  *
  *  buffer level (utils.c is compiled INTO this executor with its allocator calls and its two ICU entry points interposed, so that
@@ -267,6 +274,58 @@ static char *hexdup(const UChar *s) {
     return r;
 }
 
+
+/* replace *tbl / *pkt by what comes back from a managed CIF; prints the op's result */
+static void through_store(int is_tbl, char how, cif_value_tp **tbl, cif_packet_tp **pkt) {
+    static const UChar b0code[] = { 'b', '0', 0 };
+    static UChar tname[] = { '_', 't', 0 };
+    cif_tp *cif = NULL;
+    cif_block_tp *b = NULL;
+    cif_loop_tp *loop = NULL;
+    cif_pktitr_tp *it = NULL;
+    cif_packet_tp *p = NULL, *p2 = NULL;
+    cif_value_tp *v2 = NULL, *ref = NULL;
+    int rc1 = -1, rc2 = -1;
+
+    if (cif_create(&cif) != CIF_OK || cif_create_block(cif, b0code, &b) != CIF_OK) { OUT(" %c=setup-failed", how); goto done; }
+    if (is_tbl && how == 'S') {
+        rc1 = cif_container_set_value(b, tname, *tbl);
+        if (rc1 == CIF_OK) rc2 = cif_container_get_value(b, tname, &v2);
+    } else if (is_tbl) {
+        UChar *names[2];
+        names[0] = tname; names[1] = NULL;
+        if (cif_container_create_loop(b, NULL, names, &loop) != CIF_OK || cif_packet_create(&p, NULL) != CIF_OK
+                || cif_packet_set_item(p, tname, *tbl) != CIF_OK) { OUT(" %c=setup-failed", how); goto done; }
+        rc1 = cif_loop_add_packet(loop, p);
+        if (rc1 == CIF_OK && cif_loop_get_packets(loop, &it) == CIF_OK) {
+            rc2 = cif_pktitr_next_packet(it, &p2);
+            if (rc2 == CIF_OK && (cif_packet_get_item(p2, tname, &ref) != CIF_OK || cif_value_clone(ref, &v2) != CIF_OK)) rc2 = -2;
+            (void) cif_pktitr_close(it);
+        }
+    } else {
+        const UChar **ks = NULL;
+        if (cif_packet_get_names(*pkt, &ks) != CIF_OK) { OUT(" %c=setup-failed", how); goto done; }
+        if (!ks[0]) { OUT(" %c=skip", how); free((void *) ks); goto done; }
+        if (cif_container_create_loop(b, NULL, (UChar **) ks, &loop) != CIF_OK) { OUT(" %c=setup-failed", how); free((void *) ks); goto done; }
+        free((void *) ks);
+        rc1 = cif_loop_add_packet(loop, *pkt);
+        if (rc1 == CIF_OK && cif_loop_get_packets(loop, &it) == CIF_OK) {
+            rc2 = cif_pktitr_next_packet(it, &p2);
+            (void) cif_pktitr_close(it);
+        }
+    }
+    OUT(" %c=%d/%d", how, rc1, rc2);
+    if (is_tbl && v2) { cif_value_free(*tbl); *tbl = v2; v2 = NULL; }
+    if (!is_tbl && rc2 == CIF_OK && p2) { cif_packet_free(*pkt); *pkt = p2; p2 = NULL; }
+done:
+    if (v2) cif_value_free(v2);
+    if (p) cif_packet_free(p);
+    if (p2) cif_packet_free(p2);
+    if (loop) cif_loop_free(loop);
+    if (b) cif_container_free(b);
+    if (cif) (void) cif_destroy(cif);
+}
+
 static void do_map(int argc, char **argv) {
     int is_tbl = strcmp(argv[2], "tbl") == 0, i, nkeys = 0;
     cif_value_tp *tbl = NULL;
@@ -296,6 +355,8 @@ static void do_map(int argc, char **argv) {
                 free(hs);
                 free((void *) ks);
             }
+        } else if ((strcmp(op, "S") == 0 && is_tbl) || strcmp(op, "P") == 0) {
+            through_store(is_tbl, op[0], &tbl, &pkt);
         } else if ((op[0] == 's' || op[0] == 'g' || op[0] == 'r') && op[1] == ':') {
             char *hk = op + 2, *tag = NULL;
             UChar *k = NULL;
